@@ -23,7 +23,7 @@ func runC04(t *testing.T, tp *simrt.Tape, keepTrace bool) hx.Result {
 	cfg.MaxProcs = []int{1, 2, 4, 16}[tp.Gen(4)]
 	cfg.MaxSteps = 80000
 	corpus := getCorpus(tp.Gen(nCorpora))
-	cache := []string{"", "1", "2", "8", "64"}[tp.Gen(5)]
+	cache := []string{"", "1", "1", "2", "2", "8", "64"}[tp.Gen(7)]
 	run := &sRun{Corpus: corpus, Width: cfg.MaxProcs, Cap: int64(tp.GenRange(1, 4)), CacheSz: cache}
 	sequential := tp.Gen(3) == 0
 	nClients := tp.GenRange(1, 4)
@@ -37,9 +37,9 @@ func runC04(t *testing.T, tp *simrt.Tape, keepTrace bool) hx.Result {
 	for i := 0; i < 4; i++ {
 		switch tp.Gen(3) {
 		case 0:
-			pool = append(pool, &query.And{Children: []query.Q{&query.Meta{Field: "k", Value: regexp.MustCompile(metaVals[tp.Gen(len(metaVals))])}, genContentAtom(tp, corpus)}})
+			pool = append(pool, &query.And{Children: []query.Q{&query.Meta{Field: []string{"k", "k", "K"}[tp.Gen(3)], Value: regexp.MustCompile(metaVals[tp.Gen(len(metaVals))])}, genContentAtom(tp, corpus)}})
 		case 1:
-			pool = append(pool, &query.And{Children: []query.Q{&query.Meta{Field: "k", Value: regexp.MustCompile(metaVals[tp.Gen(2)])}, &query.Substring{Pattern: "needle"}}})
+			pool = append(pool, &query.And{Children: []query.Q{&query.Meta{Field: []string{"k", "K"}[tp.Gen(2)], Value: regexp.MustCompile(metaVals[tp.Gen(2)])}, &query.Substring{Pattern: "needle"}}})
 		default:
 			pool = append(pool, genQuery(tp, corpus, false))
 		}
